@@ -182,7 +182,7 @@ impl ConnectProperties {
         let mut authentication_method = None;
         let mut authentication_data = None;
 
-        let (properties_len_len, properties_len) = length(bytes.iter())?;
+        let (properties_len_len, properties_len) = length_in_frame(bytes.iter())?;
         bytes.advance(properties_len_len);
         if properties_len == 0 {
             return Ok(None);
@@ -499,7 +499,7 @@ impl LastWillProperties {
         let mut correlation_data = None;
         let mut user_properties = Vec::new();
 
-        let (properties_len_len, properties_len) = length(bytes.iter())?;
+        let (properties_len_len, properties_len) = length_in_frame(bytes.iter())?;
         bytes.advance(properties_len_len);
         if properties_len == 0 {
             return Ok(None);
